@@ -1018,8 +1018,11 @@ func ruleEmptyGuard(w *World, r *Report) {
 			continue
 		}
 		bad := ""
-		if ok, why := e.check(f, scenario{Kind: scEmpty, Param: 0}, 0); !ok {
+		if st, why := e.checkTwoPass(f, scenario{Kind: scEmpty, Param: 0}); st == Violated {
 			bad = why
+		} else if st == Undecided {
+			r.add("EMPTYGUARD", fn, w.Pos(f.Pos()), Undecided, why)
+			continue
 		}
 		if bad != "" {
 			r.add("EMPTYGUARD", fn, w.Pos(f.Pos()), Violated, bad)
